@@ -50,6 +50,8 @@ type c03Exec struct {
 	handouts    int
 	violations  []string
 	started     []bool
+	returned    []bool // evaluations that have returned (they need nothing any more)
+	activeOnly  bool   // needed(): only evaluations that have not returned count
 }
 
 func (e *c03Exec) Name() string                              { return "verif-c03" }
@@ -90,7 +92,7 @@ func (e *c03Exec) needed(i int, self int) bool {
 		return false
 	}
 	for ev, rs := range e.roots {
-		if !e.started[ev] {
+		if !e.started[ev] || (e.activeOnly && ev < len(e.returned) && e.returned[ev]) {
 			continue
 		}
 		for _, r := range rs {
@@ -257,6 +259,7 @@ func c03RunOpt(t *testing.T, c c03Case, enabledCounts *[]int, forceS5 bool) (res
 			}()
 		}
 		consecutiveLost := make([]int, len(tasks))
+		sawXlost := false
 		// errJustified[i]: task i may legitimately be in TaskErr (it started there, a fatal error was
 		// injected into it, or it was lost maxConsecutiveLost times in a row)
 		errJustified := make([]bool, len(tasks))
@@ -336,6 +339,36 @@ func c03RunOpt(t *testing.T, c c03Case, enabledCounts *[]int, forceS5 bool) (res
 					return
 				}
 			}
+			// L3: a task that was never run, is needed by a running evaluation and has all its dependencies
+			// complete is in the executor's hands at every quiescent point (the evaluator does not sit on
+			// ready work while something unrelated is still running)
+			// (not after an output loss of a completed task: the evaluator learns of such a loss only when
+			// it next looks at the task, so what is "needed" is then not what it can know)
+			if running > 0 && !sawXlost {
+				ex.returned = make([]bool, len(evals))
+				for i, ev := range evals {
+					ex.returned[i] = ev != nil && ev.ret
+				}
+				ex.activeOnly = true
+				defer func() { ex.activeOnly = false }()
+				for i, tk := range tasks {
+					if ex.outstanding[i] || tk.State() != TaskInit || !ex.needed(i, -1) {
+						continue
+					}
+					ready := true
+					for _, d := range tk.Deps {
+						for k := 0; k < d.NumTask(); k++ {
+							if d.Task(k).State() != TaskOk {
+								ready = false
+							}
+						}
+					}
+					if ready {
+						fail("%s: L3: task %d was never run, is needed and all of its dependencies are complete, yet it has not been handed to the executor while the evaluation waits for other tasks", step, i)
+						return
+					}
+				}
+			}
 			if running > 0 && len(ex.outstanding) == 0 {
 				var st []string
 				for i, tk := range tasks {
@@ -397,6 +430,7 @@ func c03RunOpt(t *testing.T, c c03Case, enabledCounts *[]int, forceS5 bool) (res
 				tk.Error(fmt.Errorf("injected fatal error"))
 			case "xlost":
 				res.losses++
+				sawXlost = true
 				tk.Set(TaskLost)
 			case "start":
 				start(ev.task)
@@ -542,7 +576,7 @@ const c03Random = "TestVerifC03EvalRandom"
 
 func TestVerifC03EvalRandom(t *testing.T) {
 	rec := vt.New("C03", "eval-histories",
-		"rapid: task graphs of 1..5 phases x 1..3 tasks (chains, diamonds, multi-root, shuffle phases with task groups, shared dependencies), optional initial task states from {INIT, OK, LOST, ERR} (reuse of earlier results), one or two evaluations (the second started by an event), and histories of up to 24 outcome events chosen among those enabled at each quiescent point (complete a handed-out task with OK / LOST / fatal error, lose an OK task, start the second evaluation); exec.Eval runs in a testing/synctest bubble under a controllable Executor; invariants S1-S5, L2 checked at every quiescent point, then everything is completed successfully and both evaluations must return; non-trivial = history has a loss or an error or a non-INIT initial state; distinct by case hash")
+		"rapid: task graphs of 1..5 phases x 1..3 tasks (chains, diamonds, multi-root, shuffle phases with task groups, shared dependencies), optional initial task states from {INIT, OK, LOST, ERR} (reuse of earlier results), one or two evaluations (the second started by an event), and histories of up to 24 outcome events chosen among those enabled at each quiescent point (complete a handed-out task with OK / LOST / fatal error, lose an OK task, start the second evaluation); exec.Eval runs in a testing/synctest bubble under a controllable Executor; invariants S1-S5, L2, L3 (no never-run, needed task with complete dependencies is withheld) checked at every quiescent point, then everything is completed successfully and both evaluations must return; non-trivial = history has a loss or an error or a non-INIT initial state; distinct by case hash")
 	docs, only := vt.Replays(c03Random)
 	for _, d := range docs {
 		var c c03Case
